@@ -1,7 +1,8 @@
 (* Props/C04.v — property C04: Invoke, Stream, Collect and Transform of a compiled graph
    agree.  Only statements, each closed by [exact]; the proofs are in Proofs/Paradigm*.v. *)
 From Eino Require Import Base.Util Model.Paradigm Model.StreamOps Model.ParadigmProg
-  Model.ParadigmSpec Proofs.Paradigm Proofs.ParadigmOps Proofs.ParadigmProg Proofs.ParadigmSpec.
+  Model.ParadigmSpec Proofs.Paradigm Proofs.ParadigmOps Proofs.ParadigmFieldMap Proofs.ParadigmProg
+  Proofs.ParadigmSpec.
 
 (* ------------------------------------------------------------------ node level *)
 
@@ -91,6 +92,27 @@ Theorem concat_keyFilter :
     /\ s_keyFilter k s <> [].
 Proof. exact concat_keyFilter_lem. Qed.
 Print Assumptions concat_keyFilter.
+
+(* Workflow field mappings (ToField / MapFields / FromField between strings and flat maps):
+   the stream form (chunk-wise; a chunk that lacks a key maps nothing, an empty mapping
+   result becomes the zero value of the input type) against the value form, when every key
+   the mapping reads is carried by the concatenated input (the other case is F-C04c) and
+   no two mappings write the same field (Workflow.Compile rejects that) *)
+Theorem concat_fieldMap :
+  forall (f : fmap) (s : stream val), fmap_wf f = true -> s <> [] ->
+    (forall x, vsconcat s = Ok x -> fmap_dom f x = true) ->
+    agree (vsconcat (s_fmap f s)) (res_bind (vsconcat s) (v_fmap f)) /\ s_fmap f s <> [].
+Proof. exact concat_fieldMap_lem. Qed.
+Print Assumptions concat_fieldMap.
+
+(* run-time type check on the edges leaving an any-typed node: chunk-wise stream form
+   (defaultStreamConverter) against the value form (defaultValueChecker) *)
+Theorem concat_check :
+  forall (want_map : bool) (s : stream val), s <> [] ->
+    agree (vsconcat (s_check want_map s)) (res_bind (vsconcat s) (v_check want_map))
+    /\ s_check want_map s <> [].
+Proof. exact concat_check_lem. Qed.
+Print Assumptions concat_check.
 
 (* ------------------------------------------------------------------ graph level *)
 
@@ -211,3 +233,53 @@ Theorem keyFilter_missing_key :
     s_keyFilter k (sVM ms) = [] /\ res_bind (vsconcat (sVM ms)) (v_getKey k) = Err e_nokey.
 Proof. exact keyFilter_missing. Qed.
 Print Assumptions keyFilter_missing_key.
+
+(* finding F-C04c: a field mapping from a map key that no chunk carries — Invoke fails (key
+   not found in input), in stream mode every chunk maps nothing and the consumer runs on
+   empty values and succeeds *)
+Theorem fieldmap_missing_refuted :
+  sprog_wf fmiss_prog = true
+  /\ dom_ok (compile_sprog fmiss_prog) (VS "x"%string) = false
+  /\ g_invoke (compile_sprog fmiss_prog) (VS "x"%string) = Err e_nokey
+  /\ vsconcatR (g_stream seq_mrg (compile_sprog fmiss_prog) (VS "x"%string)) = Ok (VS "n2()"%string)
+  /\ ~ agree (vsconcatR (g_stream seq_mrg (compile_sprog fmiss_prog) (VS "x"%string)))
+             (g_invoke (compile_sprog fmiss_prog) (VS "x"%string)).
+Proof. exact fieldmap_missing_refuted_lem. Qed.
+Print Assumptions fieldmap_missing_refuted.
+
+Theorem fieldMap_missing_key :
+  forall (a : N) (ms : list amap), ms <> [] -> mhas a (mval ms) = false ->
+    res_bind (vsconcat (sVM ms)) (v_fmap (FTake a)) = Err e_nokey
+    /\ vsconcat (s_fmap (FTake a) (sVM ms)) = Ok (VS EmptyString).
+Proof. exact fieldMap_missing_lem. Qed.
+Print Assumptions fieldMap_missing_key.
+
+(* non-vacuity with field mappings: a Workflow-shaped graph inside the domain *)
+Example agree_nonvacuous_workflow :
+  sprog_wf wf_prog = true
+  /\ dom_ok (compile_sprog wf_prog) (VS "abc"%string) = true
+  /\ g_invoke (compile_sprog wf_prog) (VS "abc"%string) = Ok (VS "n3{af=abc>;ag=n1<abc;ah=n2(abc);}"%string)
+  /\ vsconcatR (g_transform seq_mrg (compile_sprog wf_prog) (map Val [VS "ab"%string; VS "c"%string]))
+     = g_invoke (compile_sprog wf_prog) (VS "abc"%string).
+Proof. exact wf_prog_in_domain. Qed.
+
+(* finding F-C04d (fixed, commit c44e450): the old concatenation at an interface chunk type *)
+Theorem any_stream_output_v0_refuted :
+  spec_wf any_spec = true
+  /\ view_I vconcat_any_v0 (node_of_spec any_spec) (VS "ab"%string) = Err e_type
+  /\ view_I vconcat (node_of_spec any_spec) (VS "ab"%string) = Ok (VS "n1(ab)"%string)
+  /\ exists o, view_T vconcat (node_of_spec any_spec) (box (VS "ab"%string)) = Ok o
+       /\ List.length o = 2%nat
+       /\ vsconcat (s_check false o) = Ok (VS "n1(ab)"%string).
+Proof. exact any_stream_output_v0_refuted_lem. Qed.
+Print Assumptions any_stream_output_v0_refuted.
+
+(* non-vacuity with a cycle (three rounds through a chunk-by-chunk transformer and a
+   Stream-native node, stream condition) *)
+Example agree_nonvacuous_loop :
+  sprog_wf loop_prog = true
+  /\ dom_ok (compile_sprog loop_prog) (VS "ab"%string) = true
+  /\ g_invoke (compile_sprog loop_prog) (VS "ab"%string) = Ok (VS "n3(n2(n1(n2(n1(n2(n1(ab)))))))"%string)
+  /\ vsconcatR (g_transform seq_mrg (compile_sprog loop_prog) (map Val [VS "a"%string; VS "b"%string]))
+     = g_invoke (compile_sprog loop_prog) (VS "ab"%string).
+Proof. exact loop_prog_in_domain. Qed.
